@@ -257,6 +257,43 @@ PROPS["C17"] = {
     "level_note": "Held on the generated positions; positions the generator does not produce are not covered.",
 }
 
+PROPS["C19"] = {
+    "shards": 16,
+    "quick_budget_s": 120,
+    "thorough_budget_s": 1500,
+    "extra_builds": ["cli"],
+    "env": {"WACVERIF_CLI": "{TARGET}/cli/release/wac"},
+    "floors": {"any": {"compose:library-ok": 200, "compose:output-equal": 200, "compose:failure-equal": 300,
+                       "compose:library-fails:parse": 30, "compose:library-fails:discovery": 30, "compose:library-fails:resolution": 30,
+                       "compose:library-fails:encode": 20, "compose:library-fails:unknown-package": 30,
+                       "text-output-assembled-and-compared": 100, "diagnostics-compared": 300,
+                       "parse:output-equal": 30, "parse:failure-equal": 8, "plug:output-equal": 150, "plug:failure-equal": 60,
+                       "targets:verdict-equal": 60, "targets:library-accepts": 10, "targets:library-rejects": 20}},
+    "rule": "The `wac` binary is built from /repo (default features) and run as a child process with cwd and HOME in a scratch directory. "
+            "compose (half of the cases): a C17 document, one in ten with a syntax error, two in ten extended by a fragment that "
+            "encodes but does not validate; every mentioned package is written as <deps>/<ns>/<name>.wasm, <deps>/<ns>/<name>/<version>.wasm "
+            "or a `--dep name=path` file (always the latter when a versions directory would shadow the unversioned file), one time in six a "
+            "mentioned package is left out; deps dir is the default `deps` or `--deps-dir my-deps`; 4 (quick) or all 16 (thorough) "
+            "combinations of -i/--import-dependencies, --no-validate, -t/--wat, -o/--output. Oracle: the in-process pipeline parse -> "
+            "packages -> FileSystemPackageResolver(dir, overrides, lenient) -> resolve -> encode{define=!i, validate=!no-validate}: exit 0 "
+            "iff it succeeds; stdout (or the -o file, with stdout empty) equals its bytes, or with -t their wasmprinter text (+ newline on "
+            "stdout), which must assemble (wat) to a valid component with the same import/export names that prints to the same text; on "
+            "failure a non-zero exit, a diagnostic containing the library error's message, nothing on stdout and no output file. parse: "
+            "stdout equals the pretty JSON of the tree + newline, or failure as above. plug: 1-4 plug files (distinct and equal file stems, in "
+            "different directories) and a socket, x -t x -o, every invocation repeated 4-6 times in separate processes (fresh hash seeds); "
+            "oracle: plug() on packages named `plug:<stem>[<i>]` registered in command-line order, encode with default options. targets: a "
+            "world and a component drawn from one family of imports/exports, with --world omitted / right / wrong and one or two worlds in the "
+            "file; oracle: validate_target on the encoded WIT. Non-trivial: every invocation; distinct by command, flag combination, outcome class.",
+    "assumptions": ["a package that is not on disk makes the CLI fall back to the registry client, which cannot be reached in this sandbox: for those runs "
+                    "only `non-zero exit, diagnostic, no output` is compared, not the text of the diagnostic",
+                    "`wac targets` takes the world file with --wit in this tree (README shows a positional argument); the flags the binary accepts are used",
+                    "the binary is built with default features (no `wat`), the in-process oracle has `wat` enabled: no .wat files are placed in the layouts (C18 covers that)",
+                    "`wac resolve` (DOT output) is not part of the property and is not run"],
+    "technique": "runtime monitor: differential oracle, child process of the built binary vs in-process library pipeline",
+    "level_text": "The built binary is exercised under all documented flag combinations and its observable behaviour is compared byte for byte with the library.",
+    "level_note": "Held on the generated compositions and flag combinations; registry-backed resolution through the CLI is out of reach offline.",
+}
+
 PROPS["C18"] = {
     "shards": 8,
     "workers": ["worker", "worker-nowat"],
